@@ -96,11 +96,9 @@ package keeper
 //@   ensures [C13.gen.list.len] len(order.Shards) == len(old(order.Shards)) + len(sps)
 //@   ensures [C13.gen.list.keep] forall j int :: 0 <= j && j < len(old(order.Shards)) ==> order.Shards[j] == old(order.Shards)[j]
 //@   ensures [C13.gen.list.new] forall j int :: len(old(order.Shards)) <= j && j < len(old(order.Shards)) + len(sps) ==> order.Shards[j] == old(effShardCount(get(ShardCount))) + (j - len(old(order.Shards)))
-//@   ensures [C13.gen.shards] forall m int :: 0 <= m && m < len(sps) ==> has(Shard, old(effShardCount(get(ShardCount))) + m)
-//@       && Shard[old(effShardCount(get(ShardCount))) + m].Id == old(effShardCount(get(ShardCount))) + m
-//@       && Shard[old(effShardCount(get(ShardCount))) + m].OrderId == old(order.Id) && Shard[old(effShardCount(get(ShardCount))) + m].Status == ShardWaiting
-//@       && Shard[old(effShardCount(get(ShardCount))) + m].Sp == sps[m] && Shard[old(effShardCount(get(ShardCount))) + m].Size_ == old(order.Size_)
-//@       && Shard[old(effShardCount(get(ShardCount))) + m].Pledge.Amount == 0
+//@   ensures [C13.gen.shards] forall i int :: old(effShardCount(get(ShardCount))) <= i && i < old(effShardCount(get(ShardCount))) + len(sps) ==> has(Shard, i)
+//@       && Shard[i].Id == i && Shard[i].OrderId == old(order.Id) && Shard[i].Status == ShardWaiting
+//@       && Shard[i].Sp == sps[i - old(effShardCount(get(ShardCount)))] && Shard[i].Size_ == old(order.Size_) && Shard[i].Pledge.Amount == 0
 //@   ensures [C16.gen.count] effShardCount(get(ShardCount)) == old(effShardCount(get(ShardCount))) + len(sps)
 //@   ensures [C16.gen.inv] forall i int :: 0 <= i && i <= MaxUint64 && has(Shard, i) ==> i < effShardCount(get(ShardCount))
 //@   ensures [C13.gen.frame] forall i int :: 0 <= i && i < old(effShardCount(get(ShardCount))) ==> Shard[i] == old(Shard[i]) && (has(Shard, i) <==> old(has(Shard, i)))
@@ -112,18 +110,43 @@ package keeper
 //@   loop L1 frameexcept shard, order
 //@   loop L1 invariant -1 <= rangeindex && rangeindex < len(sps0)
 //@   loop L1 invariant effShardCount(get(ShardCount)) == old(effShardCount(get(ShardCount))) + rangeindex + 1
+//@   loop L1 invariant forall k bytes :: k != keyof(ShardCount) ==> rawsel(ShardCount, k) == old(rawsel(ShardCount, k))
 //@   loop L1 invariant forall i int :: 0 <= i && i <= MaxUint64 && has(Shard, i) ==> i < effShardCount(get(ShardCount))
 //@   loop L1 invariant len(order0.Shards) == len(old(order0.Shards)) + rangeindex + 1
 //@   loop L1 invariant forall j int :: 0 <= j && j < len(old(order0.Shards)) ==> order0.Shards[j] == old(order0.Shards)[j]
 //@   loop L1 invariant forall j int :: len(old(order0.Shards)) <= j && j <= len(old(order0.Shards)) + rangeindex ==> order0.Shards[j] == old(effShardCount(get(ShardCount))) + (j - len(old(order0.Shards)))
-//@   loop L1 invariant forall m int :: 0 <= m && m <= rangeindex ==> has(Shard, old(effShardCount(get(ShardCount))) + m)
-//@       && Shard[old(effShardCount(get(ShardCount))) + m].Id == old(effShardCount(get(ShardCount))) + m
-//@       && Shard[old(effShardCount(get(ShardCount))) + m].OrderId == old(order0.Id) && Shard[old(effShardCount(get(ShardCount))) + m].Status == ShardWaiting
-//@       && Shard[old(effShardCount(get(ShardCount))) + m].Sp == sps0[m] && Shard[old(effShardCount(get(ShardCount))) + m].Size_ == old(order0.Size_)
-//@       && Shard[old(effShardCount(get(ShardCount))) + m].Pledge.Amount == 0
+//@   loop L1 invariant forall i int :: old(effShardCount(get(ShardCount))) <= i && i <= old(effShardCount(get(ShardCount))) + rangeindex ==> has(Shard, i)
+//@       && Shard[i].Id == i && Shard[i].OrderId == old(order0.Id) && Shard[i].Status == ShardWaiting
+//@       && Shard[i].Sp == sps0[i - old(effShardCount(get(ShardCount)))] && Shard[i].Size_ == old(order0.Size_) && Shard[i].Pledge.Amount == 0
 //@   loop L1 invariant forall i int :: 0 <= i && i < old(effShardCount(get(ShardCount))) ==> Shard[i] == old(Shard[i]) && (has(Shard, i) <==> old(has(Shard, i)))
 //@   loop L1 invariant order0.Id == old(order0.Id) && order0.Creator == old(order0.Creator) && order0.Owner == old(order0.Owner) && order0.Amount == old(order0.Amount)
 //@       && order0.DataId == old(order0.DataId) && order0.Duration == old(order0.Duration) && order0.Replica == old(order0.Replica) && order0.Size_ == old(order0.Size_)
 //@       && order0.Provider == old(order0.Provider) && order0.Timeout == old(order0.Timeout) && order0.UnitPrice == old(order0.UnitPrice) && order0.PaymentDid == old(order0.PaymentDid)
 //@       && order0.Commit == old(order0.Commit) && order0.Operation == old(order0.Operation) && order0.Cid == old(order0.Cid) && order0.CreatedAt == old(order0.CreatedAt) && order0.Status == old(order0.Status)
 //@   loop L1 decreases len(sps0) - rangeindex
+
+// NewOrder stores a new order under a fresh id together with one waiting shard per chosen provider
+//@ func (Keeper) NewOrder(ctx, order, sps) (id, err)
+//@   requires order != nil
+//@   requires [C16.inv.order] forall i int :: 0 <= i && i <= MaxUint64 && has(Order, i) ==> i < effOrderCount(get(OrderCount))
+//@   requires [C16.inv.shard] forall i int :: 0 <= i && i <= MaxUint64 && has(Shard, i) ==> i < effShardCount(get(ShardCount))
+//@   requires effShardCount(get(ShardCount)) + len(sps) <= MaxUint64
+//@   modifies Order[effOrderCount(get(OrderCount))], OrderCount, Shard, ShardCount, *order
+//@   ensures [C16.neworder.id] err == nil && id == old(effOrderCount(get(OrderCount))) && id >= 1 && !old(has(Order, id)) && order.Id == id
+//@   ensures [C16.neworder.stored] has(Order, id) && Order[id] == *order
+//@   ensures [C16.neworder.count] id < MaxUint64 ==> effOrderCount(get(OrderCount)) == id + 1
+//@       && (forall i int :: 0 <= i && i <= MaxUint64 && has(Order, i) ==> i < effOrderCount(get(OrderCount)))
+//@   ensures [C16.neworder.shardcount] effShardCount(get(ShardCount)) == old(effShardCount(get(ShardCount))) + len(sps)
+//@       && (forall i int :: 0 <= i && i <= MaxUint64 && has(Shard, i) ==> i < effShardCount(get(ShardCount)))
+//@   ensures [C13.neworder.list] len(order.Shards) == len(old(order.Shards)) + len(sps)
+//@       && (forall j int :: 0 <= j && j < len(old(order.Shards)) ==> order.Shards[j] == old(order.Shards)[j])
+//@       && (forall j int :: len(old(order.Shards)) <= j && j < len(old(order.Shards)) + len(sps) ==> order.Shards[j] == old(effShardCount(get(ShardCount))) + (j - len(old(order.Shards))))
+//@   ensures [C13.neworder.shards] forall i int :: old(effShardCount(get(ShardCount))) <= i && i < old(effShardCount(get(ShardCount))) + len(sps) ==> has(Shard, i)
+//@       && Shard[i].Id == i && Shard[i].OrderId == id && Shard[i].Status == ShardWaiting
+//@       && Shard[i].Sp == sps[i - old(effShardCount(get(ShardCount)))] && Shard[i].Size_ == old(order.Size_) && Shard[i].Pledge.Amount == 0
+//@   ensures [C13.neworder.frame] forall i int :: 0 <= i && i < old(effShardCount(get(ShardCount))) ==> Shard[i] == old(Shard[i]) && (has(Shard, i) <==> old(has(Shard, i)))
+//@   ensures [C13.neworder.order] order.Creator == old(order.Creator) && order.Owner == old(order.Owner) && order.Amount == old(order.Amount)
+//@       && order.DataId == old(order.DataId) && order.Duration == old(order.Duration) && order.Replica == old(order.Replica) && order.Size_ == old(order.Size_)
+//@       && order.Provider == old(order.Provider) && order.Timeout == old(order.Timeout) && order.UnitPrice == old(order.UnitPrice) && order.PaymentDid == old(order.PaymentDid)
+//@       && order.Commit == old(order.Commit) && order.Operation == old(order.Operation) && order.Cid == old(order.Cid) && order.CreatedAt == H
+//@       && (len(sps) > 0 ==> order.Status == OrderDataReady) && (len(sps) == 0 ==> order.Status == old(order.Status))
